@@ -23,6 +23,12 @@ var prelude = map[string]handler{}
 var preludeInvoke = map[string]invokeHandler{}
 var preludeEffects = map[string][]effSpec{}
 
+const (
+	ghostWrites   = "ghost:writes"
+	ghostLastPath = "ghost:lastpath"
+	ghostLastData = "ghost:lastdata"
+)
+
 type specBuiltin func(ev *evaluator, args []*Val) *Val
 
 var specBuiltins = map[string]specBuiltin{}
@@ -96,6 +102,25 @@ func init() {
 			Le(IntLit(0), s), Lt(s, IntLit(60)), Le(IntLit(0), ns), Lt(ns, IntLit(1000000000)))
 		return &Val{T: ok, Typ: boolT}
 	}
+	// ---- file system (A-FS): the disk is ghost state that only os.WriteFile changes: a counter of writes, and the
+	// path and data of the last write. Reads return unknown contents. ----
+	prelude["os.WriteFile"] = func(x *Exec, st *State, callee *ssa.Function, args []*Val, pos token.Pos) *Val {
+		x.trusted["A-FS"] = true
+		n := x.ctx.hread(st, ghostWrites, SInt, IntLit(0))
+		for _, g := range []string{ghostWrites, ghostLastPath, ghostLastData} {
+			x.noteWrite(st, g, IntLit(0))
+		}
+		x.ctx.hwrite(st, ghostWrites, SInt, IntLit(0), Add(n, IntLit(1)))
+		x.ctx.hwrite(st, ghostLastPath, SStr, IntLit(0), args[0].T)
+		data := args[1]
+		elemT := data.Typ.Underlying().(*types.Slice).Elem()
+		arr := x.elemArr(st, elemT, slRef(data.T))
+		x.ctx.hwrite(st, ghostLastData, SStr, IntLit(0), mkStr(arr, slOff(data.T), slLen(data.T)))
+		ok := Fresh("os.writefile.ok", SBool)
+		e := x.freshError(st, "os")
+		return &Val{T: Ite(ok, nilIface, e), Typ: errT}
+	}
+	preludeEffects["os.WriteFile"] = []effSpec{{ghostWrites, SInt}, {ghostLastPath, SStr}, {ghostLastData, SStr}}
 	// ---- strings ----
 	prelude["strings.HasPrefix"] = func(x *Exec, st *State, callee *ssa.Function, args []*Val, pos token.Pos) *Val {
 		x.trusted["A-STR"] = true
